@@ -104,6 +104,10 @@ func init() {
 	for _, pid := range []string{"C18", "C02"} {
 		propRules[pid] = append(propRules[pid], Rule{Name: "E6.norebase", Run: runNoRebase})
 	}
+	for _, pid := range []string{"C06", "C07"} {
+		propRules[pid] = append(propRules[pid], Rule{Name: "E6.more", Run: runE6More})
+	}
+	propRules["C18"] = append(propRules["C18"], Rule{Name: "E1.rows", Run: runRows("C18")})
 	for _, pid := range []string{"C12", "C02", "C06", "C08", "C13"} {
 		propRules[pid] = append(propRules[pid], Rule{Name: "E8.ownexpr", Run: runOwnExprImmutable})
 	}
